@@ -41,7 +41,7 @@ def okShapeG (capsOk : Caps → Bool) (tfrFree : Bool) : Shape → Bool
   | .deco c | .tagger _ _ c => okShapeG capsOk tfrFree c
   | .tfr c => !tfrFree && okShapeG capsOk tfrFree c
   | .multi cs => okShapeGL capsOk tfrFree cs
-  | .e2s _ => false
+  | .e2s _ | .sff => false
 def okShapeGL (capsOk : Caps → Bool) (tfrFree : Bool) : List Shape → Bool
   | [] => true
   | c :: cs => okShapeG capsOk tfrFree c && okShapeGL capsOk tfrFree cs
